@@ -50,6 +50,7 @@ def fail(key: str, fmt: str = "", *args: Any) -> None:
     """Raise a Violation; the message is only rendered in concrete (replay) runs."""
     if symbolic():
         raise Violation(key, "")
+    args = tuple(a() if callable(a) else a for a in args)  # lazy pieces are only computed in concrete runs
     raise Violation(key, (fmt % args) if args else fmt)
 
 
